@@ -291,3 +291,79 @@ Proof. repeat split; vm_compute; reflexivity. Qed.
 Theorem C09_rename_nil f : rename_frag [] f = f.
 Proof. exact (rename_frag_nil f). Qed.
 Print Assumptions C09_rename_nil.
+
+(* ================================================================== translated source
+   coq/Gen/ReproGen.v is regenerated on every run from the text of /repo/amaranth/hdl/_ir.py (_add_name,
+   Design._assign_port_names) and /repo/amaranth/build/run.py (BuildPlan.add_file / digest / archive / extract) by
+   translator/unit_repro.py: every function becomes a function into the exception monad `pyres` (Ret v | Raise e);
+   the `while` loop of _add_name runs on a `fuel : nat` argument.  The theorems below (proofs in Proofs/GenEqRepro.v)
+   say that every regenerated function is the function of Model/Repro.v the theorems above are about, for all
+   inputs and every sufficient fuel. *)
+From V.Proofs Require Import GenEqRepro.
+From V.Gen Require ReproGen.
+
+(* _add_name: for every fuel above |assigned_names| the loop ends before the fuel does *)
+Theorem C09_translated_add_name fuel (A : list name) (n : name) :
+  (length A < fuel)%nat -> ReproGen.g_add_name fuel A n = of_opt (add_name A n).
+Proof. exact (gen_add_name_eq fuel A n). Qed.
+Print Assumptions C09_translated_add_name.
+
+Theorem C09_translated_add_name_returns fuel (A : list name) (n : name) :
+  (length A < fuel)%nat ->
+  exists n' A', add_name A n = Some (n', A') /\ ReproGen.g_add_name fuel A n = ReproGen.Ret (n', A').
+Proof. exact (gen_add_name_returns fuel A n). Qed.
+Print Assumptions C09_translated_add_name_returns.
+
+(* Design._assign_port_names: ports are (explicit name or None, conn, dir); `strip` keeps (name, conn.name),
+   `res_of` the names of the rewritten port list (TypeError = TypeErr, any other exception = AssertErr) *)
+Theorem C09_translated_assign_port_names fuel (ports : list gport) :
+  (length (prenamed (map strip ports)) + length ports < fuel)%nat ->
+  res_of (ReproGen.g_assign_port_names fuel ports) = assign_port_names (map strip ports).
+Proof. exact (gen_assign_port_names_eq fuel ports). Qed.
+Print Assumptions C09_translated_assign_port_names.
+
+Theorem C09_translated_assign_port_names_fuel (ports : list gport) :
+  res_of (ReproGen.g_assign_port_names (S (2 * length ports)) ports) = assign_port_names (map strip ports).
+Proof. exact (gen_assign_port_names_fuel ports). Qed.
+Print Assumptions C09_translated_assign_port_names_fuel.
+
+(* BuildPlan.add_file: AssertionError / ValueError / the extended OrderedDict *)
+Theorem C09_translated_add_file (fs : files) (k : name) (c : content) :
+  ReproGen.g_add_file k c fs = of_fres (add_file_checked fs k c).
+Proof. exact (gen_add_file_eq fs k c). Qed.
+Print Assumptions C09_translated_add_file.
+
+(* BuildPlan.digest: the bytes fed to the hasher (blake2b itself is abstracted on both sides) *)
+Theorem C09_translated_digest size (fs : files) (script : name) :
+  ReproGen.g_digest size fs script = ReproGen.Ret (digest_input fs script).
+Proof. exact (gen_digest_eq size fs script). Qed.
+Print Assumptions C09_translated_digest.
+
+(* BuildPlan.archive: the zip members written, in order *)
+Theorem C09_translated_archive file (fs : files) :
+  ReproGen.g_archive file fs = ReproGen.Ret (archive_members fs).
+Proof. exact (gen_archive_eq file fs). Qed.
+Print Assumptions C09_translated_archive.
+
+(* BuildPlan.extract; guard: no name is absolute for PureWindowsPath (add_file refuses those:
+   C09_translated_extract_guard) — extract() itself only tests pathlib.Path(...).is_absolute() *)
+Theorem C09_translated_extract root (fs : files) (d : dir) :
+  Forall (fun f => ReproGen.py_windows_is_absolute (fst f) = false) fs ->
+  ReproGen.g_extract root fs d = of_extract (extract_checked d fs).
+Proof. exact (gen_extract_eq root fs d). Qed.
+Print Assumptions C09_translated_extract.
+
+Theorem C09_translated_extract_guard (fs : files) (k : name) c fs' :
+  Forall (fun f => ReproGen.py_windows_is_absolute (fst f) = false) fs ->
+  ReproGen.g_add_file k c fs = ReproGen.Ret fs' ->
+  Forall (fun f => ReproGen.py_windows_is_absolute (fst f) = false) fs'.
+Proof. exact (add_file_keeps_guard fs k c fs'). Qed.
+Print Assumptions C09_translated_extract_guard.
+
+Example C09_translated_example :
+  ReproGen.g_add_name 3 [[97]; [97; 36; 2 + 48]] [97] = ReproGen.Ret ([97; 36; 51], [[97]; [97; 36; 50]; [97; 36; 51]]) /\
+  res_of (ReproGen.g_assign_port_names 5
+            [(None, ReproGen.mkConn 0 [97] false, 0); (Some [97], ReproGen.mkConn 1 [98] false, 1)])
+    = Ok [[97; 36; 49]; [97]] /\
+  ReproGen.g_extract [] [([97; 47; 46; 46], CBytes [1])] [] = ReproGen.Raise ReproGen.AssertionError.
+Proof. repeat split; vm_compute; reflexivity. Qed.
